@@ -198,6 +198,10 @@ func (p c17) Run(c *core.Ctx) {
 		p.mapper(c)
 		return
 	}
+	if c.Index%20 == 18 {
+		p.explicitPrefix(c)
+		return
+	}
 	v := genValue(c)
 	docTree := map[string]any{"cfg": map[string]any{"k": v.v, "other": "x"}}
 	b, err := yaml.Marshal(docTree)
@@ -633,4 +637,54 @@ func (p c17) mapper(c *core.Ctx) {
 		}
 	}
 	c.Nontrivial(fmt.Sprint("mapper|", hy, hj, py, pj))
+}
+
+// explicitPrefix: a field whose type announces a prefix of its own (ConfigurationProperties) and that
+// carries an explicit prefix tag is bound from the tag's path; likewise a field with a value tag next to a
+// prop tag is bound by the first one the processor recognises - each field is bound once.
+func (p c17) explicitPrefix(c *core.Ctx) {
+	w := func() string { return plainWords[c.Rng.Intn(len(plainWords))] }
+	hm, hr, ha := w()+"-main", w()+"-replica", w()+"-archive"
+	pm, pr := 1+c.Rng.Intn(1000), 2000+c.Rng.Intn(1000)
+	doc := fmt.Sprintf("db:\n  host: %s\n  port: %d\nreplica:\n  db:\n    host: %s\n    port: %d\narchive:\n  db:\n    host: %s\nnum:\n  a: 5\n", hm, pm, hr, pr, ha)
+	dt := reflect.TypeOf(world.PrefixedDB{})
+	fields := []world.FieldSpec{
+		{Name: "Main", Type: dt},                                // no tag: bound from Prefix()
+		{Name: "Replica", Type: dt, Tag: `prefix:"replica.db"`}, // explicit tag wins
+		{Name: "Archive", Type: reflect.PointerTo(dt), Tag: `prefix:"archive.db"`},
+		{Name: "N", Type: reflect.TypeOf(0), Tag: `value:"1" prop:"num.a"`},
+	}
+	c.Rng.Shuffle(len(fields), func(i, j int) { fields[i], fields[j] = fields[j], fields[i] })
+	h := world.NewHolder(world.BuildStruct(fields))
+	r := world.Start(&world.Scenario{Config: doc}, world.Options{Extra: []any{h}, NoTracer: true})
+	c.Count("starts", 1)
+	detail := map[string]any{"document": doc, "holder": describeHolder(h)}
+	if r.Outcome() != "ok" {
+		c.Fail("", "start did not succeed: "+core.Short(r.OutcomeDetail(), 300), detail)
+		return
+	}
+	hv := reflect.ValueOf(h).Elem()
+	main := hv.FieldByName("Main").Interface().(world.PrefixedDB)
+	rep := hv.FieldByName("Replica").Interface().(world.PrefixedDB)
+	arc := hv.FieldByName("Archive").Interface().(*world.PrefixedDB)
+	n := hv.FieldByName("N").Interface().(int)
+	var bad []string
+	if main != (world.PrefixedDB{Host: hm, Port: pm}) {
+		bad = append(bad, fmt.Sprintf("Main (untagged, Prefix()=db) = %+v, configured {%s %d}", main, hm, pm))
+	}
+	if rep != (world.PrefixedDB{Host: hr, Port: pr}) {
+		bad = append(bad, fmt.Sprintf("Replica `prefix:\"replica.db\"` = %+v, configured {%s %d}", rep, hr, pr))
+	}
+	if arc == nil || *arc != (world.PrefixedDB{Host: ha}) {
+		bad = append(bad, fmt.Sprintf("Archive `prefix:\"archive.db\"` = %+v, configured {%s 0}", arc, ha))
+	}
+	if n != 1 {
+		bad = append(bad, fmt.Sprintf("N `value:\"1\" prop:\"num.a\"` = %d, the value tag says 1", n))
+	}
+	if len(bad) > 0 {
+		c.Fail("", strings.Join(bad, "; "), detail)
+		return
+	}
+	c.Count("explicit_prefix_cases_checked", 1)
+	c.Nontrivial("explicitprefix|" + hm + hr + ha)
 }
